@@ -243,12 +243,23 @@ def make_world(sx, tt, oldlen):
                               exact=True, symbolic_window=win)
     if tt == "tt3":
         return worlds.T3World(sx, 4, 3, 5, oldlen, fill=0x40)
+    if tt == "tt3slow":
+        # a card whose PMm announces the longest response times (all six time
+        # parameters FFh) and that is read six blocks at a time: one command
+        # may take more than a second; three attempts all the same
+        return worlds.T3World(sx, 6, 4, 8, 90, fill=0x40, pmm_tail=[0xFF] * 6)
     if tt == "tt3emu":
         return worlds.T3World(sx, 4, 3, 5, oldlen, emulated=True, fill=0x40)
     if tt == "tt4a":
         return worlds.T4World(sx, 0x20, 255, 255, 32, oldlen, typ="A", fsci=8, fill=0x41)
     if tt == "tt4b":
         return worlds.T4World(sx, 0x30, 20, 9, 32, oldlen, typ="B", fsci=4, fill=0x41)
+    if tt == "tt4fwi11":
+        # frame waiting time integer 11: the retry budget per block is 1
+        return worlds.T4World(sx, 0x20, 255, 255, 32, oldlen, typ="A", fsci=8, fwi=11, fill=0x41)
+    if tt == "tt4fwi10":
+        # ... 10: budget 3
+        return worlds.T4World(sx, 0x20, 255, 255, 32, oldlen, typ="A", fsci=8, fwi=10, fill=0x41)
     if tt == "tt4longchain":
         # a READ BINARY answer chained over 8 card blocks (more blocks than the
         # retry budget of 5): every block has its own budget
@@ -624,9 +635,12 @@ def partitions(tier):
            "tt1dyn": ["read", "write", "format", "present"],
            "tt3": ["read", "write", "present", "dump"],
            "tt3emu": ["read", "write"],
+           "tt3slow": ["read", "write"],
            "tt4a": ["read", "write", "present", "format"],
            "tt4b": ["read", "write"],
            "tt4chain": ["read", "write"],
+           "tt4fwi11": ["read", "write"],
+           "tt4fwi10": ["read"],
            "tt4longchain": ["read"]}
     if tier != "quick":
         for tt in ("tt2", "tt1", "tt1dyn", "tt4a"):
